@@ -126,8 +126,8 @@ fn c15_o3_rotation() {
     let t0: u64 = kani::any();
     let dt: u64 = kani::any();
     kani::assume(t0 < (1 << 40) && dt < (1 << 40));
-    let fresh1: [u8; 20] = kani::any();
-    let fresh2: [u8; 20] = kani::any();
+    let fresh1: [u8; 20] = kani::env();
+    let fresh2: [u8; 20] = kani::env();
     rnd::preload(&fresh1);
     rnd::preload(&fresh2);
     let mut t = any_tokens_at(t0);
